@@ -1225,6 +1225,13 @@ class FortranFile:
                             len(line),
                         )
         errors, diags_ast = self.ast.check_file(obj_tree)
+        # Columns of parse errors are taken from the joined statement, keep them
+        # inside the physical line the diagnostic is reported on
+        for diag in diags_ast:
+            for pos in (diag["range"]["start"], diag["range"]["end"]):
+                if 0 <= pos["line"] < self.nLines:
+                    line_len = len(self.contents_split[pos["line"]])
+                    pos["character"] = min(pos["character"], line_len)
         diagnostics += diags_ast
         for error in errors:
             diagnostics.append(error.build(self))
